@@ -215,6 +215,7 @@ def suite_reuse(rng, tier):
     sender and receiver in lock-step (resets at the same points)"""
     out = []
     alpha = [("send", l, how) for l in (LBL_A6, LBL_B6, LBL_A3, LBL_BC, LBL_RU) for how in ("ok", "small", "frag")] + \
+            [("send", l, "ok") for l in TRICKY_LABELS] + [("send", LBL_A6_LAST, "frag"), ("send", LBL_3_ABC, "small")] + \
             [("send", LBL_A6, "ptype"), ("send", LBL_Z6, "ok"), ("send", LBL_B3, "ok"), ("send", LBL_A6, "ext"), ("send", LBL_A6, "extsmall"),
              ("reset",), ("disable",), ("enable",), ("max", 1), ("max", 2), ("max", 0), ("max", 255)]
     depth = 3
